@@ -172,9 +172,13 @@ impl SingleSubLowerer<'_, '_> {
                 .unwrap_or(sp!((0.0).into()))
         };
 
-        // EoSD args must be const
-        let lowered_int = self.classify_expr(&int)?.expect_simple().lowered.clone();
-        let lowered_float = self.classify_expr(&float)?.expect_simple().lowered.clone();
+        // EoSD args must be simple (they are embedded directly into the call instruction)
+        let mut lower_simple_arg = |arg: &Sp<ast::Expr>| match self.classify_expr(arg)? {
+            ExprClass::Simple(simple) => Ok(simple.lowered.clone()),
+            ExprClass::NeedsElaboration(_) => Err(self.unsupported(arg.span, "complex expression as argument of EoSD ECL sub call")),
+        };
+        let lowered_int = lower_simple_arg(&int)?;
+        let lowered_float = lower_simple_arg(&float)?;
         let lowered_sub_id = sp!(call.name.span => LowerArg::Raw(sub.index.into()));
 
         self.lower_intrinsic(
